@@ -116,7 +116,7 @@ def run_case(prop, case, model):
         ops = ops_from_json(dec(case["ops"]))
         py = prop.make_py() if hasattr(prop, "make_py") else execs.PyExec()
         replies = []
-        div, py = execs.run_history(ops, model, py=py, replies=replies, model_ops=getattr(prop, "MODEL_OPS", None))
+        div, py = execs.run_history(ops, model, py=py, replies=replies, expander=getattr(prop, "expand_ops", None))
         res.divergence = div
         res.violations = prop.oracle(case, py, replies)
         res.stats = prop.stats(case, py, replies) if hasattr(prop, "stats") else {}
@@ -134,9 +134,17 @@ def oracle_only(prop, case):
         ops = ops_from_json(dec(case["ops"]))
         py = prop.make_py() if hasattr(prop, "make_py") else execs.PyExec()
         replies = []
-        for op in ops:
+        queue = list(ops)
+        while queue:
+            op = queue.pop(0)
+            if op[0] == "mutations" and hasattr(prop, "expand_ops"):
+                queue = list(prop.expand_ops(op, py)) + queue
+                continue
             op = execs.expand(op, py)
-            replies.append(py.apply(op))
+            try:
+                replies.append(py.apply(op))
+            except Exception as e:  # noqa: BLE001
+                replies.append("crash:" + type(e).__name__ + ":" + str(e)[:200])
         return prop.oracle(case, py, replies)
     except Exception as e:  # noqa: BLE001
         return ["oracle crashed: %s: %s" % (type(e).__name__, e)]
